@@ -1,0 +1,22 @@
+// +build verif
+
+package engine
+
+// VerifBatchPending reports how many operations a write batch holds that were
+// neither committed nor cleared (-1 for an unknown implementation). Only
+// compiled with the verif build tag.
+func VerifBatchPending(wb WriteBatch) int {
+	switch b := wb.(type) {
+	case *memWriteBatch:
+		n := len(b.ops)
+		if n == 0 && b.writer != nil {
+			n = 1
+		}
+		return n
+	case *pebbleWriteBatch:
+		return int(b.wb.Count())
+	case *rocksWriteBatch:
+		return b.wb.Count()
+	}
+	return -1
+}
